@@ -1,6 +1,7 @@
 package hx
 
 import (
+	"strings"
 	"fmt"
 	"runtime"
 	"sync/atomic"
@@ -59,8 +60,21 @@ func (r6 c06) Run(c *Ctx, i int) CaseResult {
 		reps = 12
 	}
 	var res CaseResult
+	traceStats := map[string]int{}
+	defer func() {
+		if res.Counters != nil {
+			for k, v := range traceStats {
+				res.Counters[k] = v
+			}
+		}
+	}()
 	for k := 0; k < reps; k++ {
 		res = r6.once(c, i, k)
+		for key, v := range res.Counters {
+			if strings.HasPrefix(key, "trace_") {
+				traceStats[key] += v
+			}
+		}
 		if len(res.Fails) > 0 || res.Skipped != "" {
 			if len(res.Fails) > 0 {
 				res.Fails[0].What += fmt.Sprintf(" (repetition %d of %d)", k+1, reps)
@@ -164,7 +178,11 @@ func (c06) once(c *Ctx, i int, rep int) CaseResult {
 		return res
 	}
 	// L1: the observed execution is a run of the executor machine (whose runs all terminate, Props.C06)
-	res.Fails = append(res.Fails, TraceFails(c, rec, o, in)...)
+	tf, tstatus := TraceFails(c, rec, o, in)
+	res.Fails = append(res.Fails, tf...)
+	if tstatus != "" {
+		res.Counters[tstatus]++
+	}
 	// quiescence at return
 	if n := atomic.LoadInt64(&fc.Injected.InFlight); n != 0 {
 		fail("L0.quiescence", fmt.Sprintf("Execute returned while %d service calls were still running", n), nil)
